@@ -508,9 +508,10 @@ def gen_cfg(rng):
     cfg["return_info"] = rng.random() < 0.6
     if method in ("map", "imap"):
         cfg["on_content"] = rng.random() < 0.5
-        if rng.random() < 0.25:
+        if rng.random() < 0.3:
             cfg["bundle"] = 2
-            cfg["on_content"] = rng.random() < 0.3 and wt == "thread"
+            # with an odd number of files the last bundle holds exactly one file
+            cfg["on_content"] = rng.random() < 0.6
         if cfg["on_content"] and not cfg["bundle"] and rng.random() < 0.5:
             cfg["gate_reader"] = True
     else:
